@@ -77,6 +77,18 @@ func runC18(c *Ctx) {
 				c.violated(rule, cons, t.Events[i].Pos, msg, c.witness(t, i)...)
 			}
 		}
+		// a step is run by Transact itself, inside its own begin / recover / finish protocol — never handed to
+		// another function (a library helper neither recovers the step's panic into an error nor finishes once)
+		for i, e := range t.Events {
+			if e.Kind != EvCall || isStep(e) {
+				continue
+			}
+			for _, a := range e.Args {
+				if a.Kind == KInit && a.Args[0].Kind == KIndexAddr && a.Args[0].Args[0].Key() == t.Params[1].Key() {
+					fail(&okBegin, "C18.begin", i, "a step is handed to "+e.callName()+" instead of being run inside Transact's own transaction: on that path a panicking step escapes without an error value, and the transaction is finished by rules other than Transact's (e.g. rolled back after a failed commit)")
+				}
+			}
+		}
 		if t.End == EndPanic {
 			fail(&okFinish, "C18.finish-once", -1, "a panic in a step escapes Transact: the caller gets no error value and, unless the rollback ran, the transaction stays open")
 		}
